@@ -544,13 +544,13 @@ def run(chk):
     prog = chk.load()
     from . import c02 as _c02
     _c02.PROG[0] = prog
-    rule_verify_before_publish(chk, prog)
-    rule_satisfy_loop(chk, prog)
-    rule_merge_split(chk, prog)
-    rule_solve_uses_satisfy(chk, prog)
-    rule_slack_form(chk, prog)
-    rule_scaling_flag(chk, prog)
-    rule_who_writes(chk, prog)
+    chk.guard(rule_verify_before_publish, chk, prog)
+    chk.guard(rule_satisfy_loop, chk, prog)
+    chk.guard(rule_merge_split, chk, prog)
+    chk.guard(rule_solve_uses_satisfy, chk, prog)
+    chk.guard(rule_slack_form, chk, prog)
+    chk.guard(rule_scaling_flag, chk, prog)
+    chk.guard(rule_who_writes, chk, prog)
     r = chk.rule("SIBLING", "every function of libavoid's solver copy (libavoid/vpsc.{h,cpp}) is structurally identical to its libvpsc "
                  "counterpart after alpha-renaming, dropping assertions/casts and unifying the heap ADT (tables/siblings.json lists the "
                  "deliberate differences)", floor=60)
